@@ -1,5 +1,8 @@
 import IrVerif.Drive.Util
 import IrVerif.Model.PassInfra
+import IrVerif.Model.PassFlags
+import IrVerif.Drive.Sort
+import IrVerif.Drive.Passes
 /-! Protocol handler for the C14 models (`passinfra.*`). -/
 open Lean IrVerif.Drive
 namespace IrVerif.Drive.PassInfra
@@ -60,11 +63,12 @@ partial def parsePass (j : Json) : Except String (Pass SW) := do
   | "func" => return .func (← parsePass (← j.getObjVal? "p"))
   | k => throw s!"unknown pass kind {k}"
 
-partial def allCtorOk : Pass SW → Bool
-  | .leaf _ => true
-  | .seq ps => !ps.isEmpty && ps.all allCtorOk
-  | .mgr ps _ _ => !ps.isEmpty && ps.all allCtorOk
-  | .func p => allCtorOk p
+partial def allCtorOk (p : Pass SW) : Bool :=
+  ctorOk p && (match p with
+    | .leaf _ => true
+    | .seq ps => ps.all allCtorOk
+    | .mgr ps _ _ => ps.all allCtorOk
+    | .func q => allCtorOk q)
 
 def excName : Exc → String
   | .precondition => "PreconditionError"
@@ -127,51 +131,41 @@ def valJ (v : Val) : Json :=
        ("const", match v.const with | none => Json.null | some t => toJson t.id),
        ("shape", optNatJ v.shape), ("type", optNatJ v.type)]
 
-def runCApi (j : Json) : Except String Json := do
-  let vals ← (← getArr j "vals").mapM parseVal
-  let inits ← (← getArr j "inits").mapM (fun p => do return ((← getStr p "k"), (← getNat p "v")))
-  let inputs ← getNats j "inputs"
-  let fault : Option Fault := match j.getObjVal? "fault" with
-    | .ok (Json.arr #[a, b]) =>
-      match (fromJson? a : Except String Nat), (fromJson? b : Except String Bool) with
-      | .ok a, .ok b => some ⟨a, b⟩
-      | _, _ => none
-    | _ => none
-  let serFail ← getBool j "ser_fail"
-  let funcOk ← getBool j "func_ok"
-  let mode ← getStr j "mode"
-  let dflt : Val := ⟨"", none, none, none⟩
-  let g : G := ⟨fun i => vals.getD i dflt, inits, inputs⟩
+def parseFault (j : Json) : Option Fault :=
+  match j.getObjVal? "fault" with
+  | .ok (Json.arr #[a, b]) =>
+    match (fromJson? a : Except String Nat), (fromJson? b : Except String Bool) with
+    | .ok a, .ok b => some ⟨a, b⟩
+    | _, _ => none
+  | _ => none
+
+def primJ : Prim → Json
+  | .setShape v _ => Json.arr #[Json.str "setShape", toJson v]
+  | .setDtype v _ => Json.arr #[Json.str "setDtype", toJson v]
+  | .appendInput v => Json.arr #[Json.str "appendInput", toJson v]
+  | .clearConst v => Json.arr #[Json.str "clearConst", toJson v]
+  | .popInit k => Json.arr #[Json.str "popInit", Json.str k]
+
+def worldJ (nvals ntens : Nat) (g : G) : Json :=
+  obj [("vals", Json.arr ((List.range nvals).map (fun i => valJ (g.val i))).toArray),
+    ("inits", Json.arr (g.inits.map (fun (kv : String × Nat) =>
+        Json.arr #[Json.str kv.1, toJson kv.2])).toArray),
+    ("inputs", natsJ g.inputs),
+    ("tnames", strsJ ((List.range ntens).map g.tname))]
+
+def parseInferred (j : Json) : Except String Inferred := do
+  (← getArr j "inferred").mapM (fun e => do
+    return ((← getStr e "n"), (← getOptNat e "s"), (← getOptNat e "d")))
+
+/-- one call (`call_onnx_api`, `CheckerPass`, `ShapeInferencePass`) described by `c` on graph `g` -/
+def oneCall (mode : String) (c : Json) (g : G) : Except String (G × Json × Json × Json) := do
+  let fault := parseFault c
+  let serFail ← getBool c "ser_fail"
+  let funcOk ← getBool c "func_ok"
   let ser : G → Option ProtoView := fun g => if serFail then none else serView g
+  let reach : G → Nat := fun g => if serFail then 0 else serReach g
   let func : ProtoView → Option ProtoView := fun p => if funcOk then some p else none
-  let (g', outJ, _) :=
-    match mode with
-    | "checker" =>
-      let (g', ret) := checkerCall fault ser (fun p => (func p).map (fun _ => ())) g 0
-      let o := match ret with
-        | .result r => Json.arr #[Json.str "ok", toJson r.modified]
-        | _ => Json.arr #[Json.str "raised"]
-      (g', o, Json.null)
-    | "shape" =>
-      let (g', ret) := shapeInferenceCall fault ser func (fun g _ => (g, false)) g 0
-      let o := match ret with
-        | .result r => Json.arr #[Json.str "ok", toJson r.modified]
-        | _ => Json.arr #[Json.str "raised"]
-      (g', o, Json.null)
-    | _ =>
-      let (g', out) := callOnnxApi fault ser func g
-      match out with
-      | .ok _ => (g', Json.arr #[Json.str "ok"], Json.null)
-      | .raised => (g', Json.arr #[Json.str "raised"], Json.null)
-  let n := vals.length
-  let primJ : Prim → Json
-    | .setShape v _ => Json.arr #[Json.str "setShape", toJson v]
-    | .setDtype v _ => Json.arr #[Json.str "setDtype", toJson v]
-    | .appendInput v => Json.arr #[Json.str "appendInput", toJson v]
-    | .clearConst v => Json.arr #[Json.str "clearConst", toJson v]
-    | .popInit k => Json.arr #[Json.str "popInit", Json.str k]
-  let st := strip fault (inits.map (·.2)) ⟨g, 0, false, []⟩
-  -- the proto handed to the wrapped call (when the strip and the serialization succeeded)
+  let st := strip fault (g.inits.map (·.2)) ⟨g, 0, false, []⟩
   let protoJ := match (if st.raised then none else ser st.g) with
     | none => Json.null
     | some p =>
@@ -179,12 +173,50 @@ def runCApi (j : Json) : Except String Json := do
               Json.arr #[Json.str kt.1, toJson kt.2])).toArray),
            ("inputs", Json.arr (p.inputs.map (fun (x : String × Option Nat × Option Nat) =>
               Json.arr #[Json.str x.1, optNatJ x.2.1, optNatJ x.2.2])).toArray)]
-  return obj [("out", outJ), ("proto", protoJ),
-    ("prims", Json.arr (st.log.reverse.map primJ).toArray),
-    ("vals", Json.arr ((List.range n).map (fun i => valJ (g'.val i))).toArray),
-    ("inits", Json.arr (g'.inits.map (fun (kv : String × Nat) =>
-        Json.arr #[Json.str kv.1, toJson kv.2])).toArray),
-    ("inputs", natsJ g'.inputs)]
+  let primsJ := Json.arr (st.log.reverse.map primJ).toArray
+  let retJ : CallRet → Json
+    | .result r => Json.arr #[Json.str "ok", toJson r.modified]
+    | _ => Json.arr #[Json.str "raised"]
+  match mode with
+  | "checker" =>
+    let (g', ret) := checkerCall fault reach ser (fun p => (func p).map (fun _ => ())) g 0
+    return (g', retJ ret, protoJ, primsJ)
+  | "shape" =>
+    let deserOk := (c.getObjValAs? Bool "deser_ok").toOption.getD true
+    let inf ← if deserOk then parseInferred c else pure []
+    let ids ← getNats c "merge_ids"
+    let (g', ret) := shapeInferenceCall fault reach ser func
+      (fun _ => if deserOk then some inf else none) (mergeVals ids) g 0
+    return (g', retJ ret, protoJ, primsJ)
+  | _ =>
+    let (g', out) := callOnnxApi fault reach ser func g
+    let o := match out with
+      | .ok _ => Json.arr #[Json.str "ok"]
+      | .raised => Json.arr #[Json.str "raised"]
+    return (g', o, protoJ, primsJ)
+
+def runCApi (j : Json) : Except String Json := do
+  let vals ← (← getArr j "vals").mapM parseVal
+  let inits ← (← getArr j "inits").mapM (fun p => do return ((← getStr p "k"), (← getNat p "v")))
+  let inputs ← getNats j "inputs"
+  let tnames ← getStrs j "tnames"
+  let mode ← getStr j "mode"
+  let dflt : Val := ⟨"", none, none, none⟩
+  let g : G := ⟨fun i => vals.getD i dflt, inits, inputs, fun t => tnames.getD t ""⟩
+  -- a sequence of calls on the same model ("seq"), or the single call described at top level
+  let calls := match j.getObjVal? "seq" with
+    | .ok (Json.arr a) => a.toList
+    | _ => [j]
+  let mut cur := g
+  let mut trace : Array Json := #[]
+  let mut last : Json × Json × Json := (Json.null, Json.null, Json.null)
+  for c in calls do
+    let (g', o, protoJ, primsJ) ← oneCall mode c cur
+    cur := g'
+    last := (o, protoJ, primsJ)
+    trace := trace.push (obj [("out", o), ("world", worldJ vals.length tnames.length g')])
+  return obj [("out", last.1), ("proto", last.2.1), ("prims", last.2.2),
+    ("world", worldJ vals.length tnames.length cur), ("trace", Json.arr trace)]
 
 /-! ### concrete passes -/
 
@@ -230,6 +262,47 @@ def runDce (j : Json) : Except String Json := do
         ("inputs", Json.arr (n.inputs.map optNatJ).toArray), ("outputs", natsJ n.outputs)])).toArray),
     ("inits", natsJ t.inits), ("size", toJson (Dce.size t))]
 
+/-- `PassManager([RemoveUnusedNodesPass()], steps, early_stop)(model)` on a graph without subgraphs:
+    the manager model around the counting-pass instance -/
+def runDceMgr (j : Json) : Except String Json := do
+  let nodes ← (← getArr j "nodes").mapM (fun n => do
+    return (⟨← getNat n "id", ← getOptNats n "inputs", ← getNats n "outputs"⟩ : Dce.Node))
+  let s : Dce.St := ⟨nodes, ← getNats j "outs", ← getNats j "ins", ← getNats j "inits"⟩
+  let p : Pass Dce.St := .mgr [.leaf (countingLeaf Dce.sites Dce.rw)] (← getNat j "steps") (← getBool j "es")
+  let (t, res) := p.run (fun w m => (w, m + 1)) s 0
+  let resJ := match res with
+    | .ok r => Json.arr #[Json.str "ok", toJson r.model, toJson r.modified]
+    | .error e => Json.arr #[Json.str "raised", Json.str (excName e)]
+  return obj [("res", resJ),
+    ("nodes", Json.arr (t.nodes.map (fun n => obj [("id", toJson n.id),
+        ("inputs", Json.arr (n.inputs.map optNatJ).toArray), ("outputs", natsJ n.outputs)])).toArray),
+    ("inits", natsJ t.inits)]
+
+/-- the flag of `TopologicalSortPass` on C12's model of the pass -/
+def runSortPass (j : Json) : Except String Json := do
+  let gs ← (← getArr j "graphs").mapM IrVerif.Drive.Sort.parseGraph
+  return obj [("raised", toJson (IrVerif.Sort.passEffect gs).1), ("flag", toJson (sortPassFlag gs))]
+
+open IrVerif.PassFlags IrVerif.Passes in
+/-- the `modified` flag (and count, measure before / after) of a pass on C05's model of it -/
+def runFlags (j : Json) : Except String Json := do
+  let m ← IrVerif.Drive.Passes.getModel (← j.getObjVal? "model")
+  let pass ← getStr j "pass"
+  match pass.splitOn ":" with
+  | ["dce"] =>
+    return obj [("flag", toJson (dceFlag m)), ("count", toJson (dceCount m)),
+      ("before", toJson (dceSize m)), ("after", toJson (dceSize (dceModel m)))]
+  | ["lift", a, n] =>
+    let la := a == "1"
+    let lim := n.toNat?.getD 0
+    return obj [("flag", toJson (liftFlag la lim m)), ("count", toJson (liftCntG la lim m.graph)),
+      ("before", toJson (nodesG m.graph)), ("after", toJson (nodesG (liftConstModel la lim m).graph))]
+  | ["dedup", n] =>
+    let lim := n.toNat?.getD 0
+    return obj [("flag", toJson (dedupFlag lim m)), ("count", toJson (dedupCntG lim m.graph)),
+      ("before", toJson (initsG m.graph)), ("after", toJson (initsG (dedupModel lim m).graph))]
+  | _ => throw s!"unknown pass {pass}"
+
 def handle : Handler := fun m j =>
   match m with
   | "passinfra.run" => some (runScripted j)
@@ -240,6 +313,9 @@ def handle : Handler := fun m j =>
   | "passinfra.rminit" => some (runInitInputs false j)
   | "passinfra.addinit" => some (runInitInputs true j)
   | "passinfra.dce" => some (runDce j)
+  | "passinfra.dcemgr" => some (runDceMgr j)
+  | "passinfra.sortpass" => some (runSortPass j)
+  | "passinfra.flags" => some (runFlags j)
   | _ => none
 
 end IrVerif.Drive.PassInfra
